@@ -1,4 +1,5 @@
 import BM.Props.C11
+import BM.Props.Pins
 import BM.Props.C12
 import BM.Proofs.Prov
 /-
